@@ -14,32 +14,37 @@ LEVEL_TEXT = ('Lean 4 theorems, for all shapes/targets/parities: pad (2-D and cu
               'preserves the sum; the centroid of an array that is half-turn symmetric about a sample is that sample, the centroid of an indicator '
               'set is its mean position; mesh coordinates translate under integer '
               'shifts and negate under the half-turn index map; circle/rectangle/hexagon values lie in [0,1], are binary without '
-              'antialiasing, translate under integer shifts and are half-turn (and, unrotated, mirror) symmetric — hexagons via the closure of their six '
+              'antialiasing, translate under integer shifts (also spider) and are half-turn and mirror symmetric (hexagons in both orientations) — via the closure of their six '
               'edge normals under negation/mirroring, proved for the real angles n·pi/3 + phi; hex_ring(k) has 6k cells at cube '
               'distance k, pairwise distinct; a k-ring aperture has 1+3k(k+1) distinct cells minus the dropped numbers in range; for seg_gap > 0 '
               'two segments at distinct cells share no pixel (separating-axis argument over any ordered field, both orientations, with the '
               'exact sin/cos tables of the edge normals proved over R) and, for pad >= 2, every segment pixel has row/column index in '
-              '[1, size-2] (clear of the border). PARTIAL: equal area up to edge sampling is checked on the real code only (no theorem); '
+              '[1, size-2] (clear of the border) — both also restated over the regenerated size / pitch / hex_to_rc expressions the driver runs; drawing and padding commute, cropping is sub-array extraction. PARTIAL: equal area up to edge sampling is checked on the real code only (no theorem); '
               'float rounding of the edge test and of the ceil in the array size is not modelled.')
 LEVEL_NOTE = ('Trusted: Lean kernel, py2lean subset semantics, NumPy slicing/reshape/any/where semantics as modelled in '
               'Model/Geometry.lean, float sqrt/sin/cos (model run at Float, tolerance 1e-9; binary masks compared except where the '
               'real-valued margin to the edge is < 1e-9), generator coverage. Known finding: hex_segments(seg_gap=0, antialias=False) '
               'shares edge pixels between neighbours. Unproven: equal area up to edge sampling (oracle only).')
 TECHNIQUE = 'Lean 4 proof (omega/induction/Finset sums) over translator-regenerated index kernel + hand model with differential correspondence'
-GEN = ['Util', 'Helper', 'Helper20', 'Hex']
+GEN = ['Util', 'Helper', 'Helper20', 'Hex', 'Mesh']
 OPS = ['C20']
 RULE = ('cases: pad of 2-D arrays (all source/target sizes 1..9, every grow/shrink/parity mix) and cubes (depth 1..3, non-square), '
         'subarray incl. windows outside the array, boundary/boundary_slice/slice_offset on sparse integer arrays with thresholds and '
         'pads, rebin (2-D, cubes, non-divisible factors), centroid, hex_ring 0..6, hex_segments (rings 1..3, gaps >= 0, drop lists '
-        'with duplicates and out-of-range numbers, both orientations), circle/rectangle/hexagon with dyadic parameters, shifts and '
-        'rotations, antialiased and binary; distinct = canonical (kind, shapes, parameters) signature; non-trivial = not the '
+        'with duplicates and out-of-range numbers, both orientations; also the library defaults antialias=True/pad=2/drop=(0,) compared as a flattened aperture), '
+        'cross-helper cases (pad of a drawn shape = the shape drawn larger, crop = sub-array, centroid and bounding box of an integer-shifted shape), float and '
+        'negative-weight centroids, rebin refusals (factor 0, complex), util.window (shape / slice / both / neither / one element / cube), '
+        'circle/rectangle/hexagon/spider with dyadic parameters, shifts and rotations, antialiased and binary, incl. shapes much larger '
+        'than the array or centred far outside it; boundary data at physical scales 1e-18..1e12; half-turn-symmetric arrays for the '
+        'centroid; deeper tiers add arrays up to 3001x3 / 3x4097, int8/int16/uint8/int32/float32 data, a 61-segment aperture; distinct = canonical (kind, shapes, parameters) signature; non-trivial = not the '
         'same-shape/identity case')
 TRUSTED = ['NumPy slicing, reshape(...).sum, np.any/np.where, np.clip/np.minimum semantics as modelled by hand in Model/Geometry.lean',
            'libm sqrt/sin/cos agree with NumPy to 1e-9 (drawn shapes are compared with the model run at Float)']
 UNPROVEN = ['hex_segments: equal segment area up to edge sampling (checked on the real code by the oracle only)']
 ASSUMPTIONS = ['shape parameters, shifts and radii are dyadic rationals of moderate size so that mesh coordinates are exact in float64',
                'non-overlap is judged on non-antialiased masks; seg_gap = 0 is the recorded known finding KF-C20-hex-gap0-shared-edge',
-               'border clearance is stated for pad >= 2 (the default); pad < 2 is not claimed']
+               'border clearance is stated for pad >= 2 (the default); pad < 2 is not claimed',
+               'util.window(cube, slice=...) is not generated: it slices the first two axes (depth, rows) of a cube, not rows and columns — reported, outside the property statement']
 
 # ------------------------------------------------------------------------------------------ generation
 def _ints(rng, n, lo=-4, hi=5): return [int(x) for x in rng.integers(lo, hi, n)]
@@ -85,6 +90,15 @@ def generate(rng, tier):
         elif t == 2:
             m = (int(rng.integers(1, 4)), int(rng.integers(1, 8)), int(rng.integers(1, 8))); S = (int(rng.integers(1, 9)), int(rng.integers(1, 9)))
             out.append({'kind': 'pad3', 'shape': list(m), 'to': list(S), 'data': _ints(rng, m[0] * m[1] * m[2], 1, 9)})
+        elif t == 3 and k % 28 == 3:
+            m = (int(rng.integers(2, 10)), int(rng.integers(2, 10)))
+            mode = ['shape', 'slice', 'both', 'none', 'one-element', 'cube-shape'][int(rng.integers(0, 6))]
+            c = {'kind': 'window', 'shape': list(m), 'data': _ints(rng, m[0] * m[1], 1, 9), 'mode': mode,
+                 'to': [int(rng.integers(1, 12)), int(rng.integers(1, 12))]}
+            r0, c0 = int(rng.integers(0, m[0])), int(rng.integers(0, m[1]))
+            c['slice'] = [r0, int(rng.integers(r0 + 1, m[0] + 1)), c0, int(rng.integers(c0 + 1, m[1] + 1))]
+            if mode.startswith('cube'): c['shape'] = [2] + list(m); c['data'] = _ints(rng, 2 * m[0] * m[1], 1, 9)
+            out.append(c)
         elif t == 3:
             m = (int(rng.integers(1, 10)), int(rng.integers(1, 10)))
             sub = (int(rng.integers(1, m[0] + 2)), int(rng.integers(1, m[1] + 2)))
@@ -123,6 +137,17 @@ def generate(rng, tier):
                 if e.sum() == 0: e[c0, c1] = 1
                 c['data'] = [int(x) for x in e.ravel()]; c['sym_centre'] = [c0, c1]
             out.append(c)
+        elif t == 8 and k % 42 == 8:
+            out.append({'kind': 'segments_aa', 'rings': int(rng.integers(1, 3)), 'radius': _dy(rng, 3, 5), 'gap': [1.0, 1.5, 2.0][int(rng.integers(0, 3))]})
+        elif t == 8 and k % 42 == 22:
+            shp = [int(rng.integers(9, 15)), int(rng.integers(9, 15))]; big = [shp[0] + int(rng.integers(0, 6)), shp[1] + int(rng.integers(0, 6))]
+            sub = [int(rng.integers(3, shp[0] + 1)), int(rng.integers(3, shp[1] + 1))]
+            out.append({'kind': 'cross', 'shape': shp, 'big': big, 'sub': sub, 'radius': _dy(rng, 1, 3), 'shift': [int(rng.integers(-1, 2)), int(rng.integers(-1, 2))],
+                        'which': ['circle', 'hexagon', 'rectangle'][int(rng.integers(0, 3))], 'data': _ints(rng, shp[0] * shp[1], 1, 9)})
+        elif t == 8 and k % 42 == 36:
+            m = (int(rng.integers(2, 8)), int(rng.integers(2, 8)))
+            out.append({'kind': 'centroid_float', 'shape': list(m), 'data': [int(x) / 8 for x in rng.integers(-8, 25, m[0] * m[1])]})
+            out.append({'kind': 'rebin_refusal', 'what': ['f0', 'complex'][int(rng.integers(0, 2))]})
         elif t == 8:
             if rng.integers(0, 2):
                 out.append({'kind': 'hex_ring', 'k': int(rng.integers(0, 7))})
@@ -150,6 +175,9 @@ def generate(rng, tier):
             if t == 10:
                 rad = _dy(rng, D, 3 * D) if far else _dy(rng, 1, 6)
                 out.append({'kind': 'circle', 'shape': shp, 'radius': rad, 'shift': shift, 'aa': aa, 'dshift': dshift})
+            elif t == 12 and k % 28 == 12:
+                ang = [0.0, 90.0, 30.0, 45.0, 180.0, float(int(rng.integers(-180, 181)))][int(rng.integers(0, 6))]
+                out.append({'kind': 'spider', 'shape': shp, 'width': _dy(rng, 1, 4), 'shift': shift, 'angle': ang, 'aa': aa, 'dshift': dshift})
             elif t in (11, 12):
                 ang = [0.0, 0.0, 90.0, 30.0, 45.0, float(int(rng.integers(-180, 181)))][int(rng.integers(0, 6))]
                 out.append({'kind': 'rectangle', 'shape': shp, 'width': _dy(rng, D, 4 * D) if far else _dy(rng, 1, 9),
@@ -173,8 +201,10 @@ def signature(c):
     k = c['kind']
     keys = {'pad2': ('shape', 'to'), 'pad3': ('shape', 'to'), 'subarray': ('shape', 'sub', 'shift'), 'boundary': ('shape', 'data', 'thr', 'pad'),
             'rebin': ('shape', 'f'), 'centroid': ('shape', 'data'), 'hex_ring': ('k',), 'mesh': ('shape', 'shift'),
-            'segments': ('rings', 'radius', 'gap', 'rotate', 'drop', 'pad'), 'circle': ('shape', 'radius', 'shift', 'aa'),
-            'rectangle': ('shape', 'width', 'height', 'shift', 'angle', 'aa'), 'hexagon': ('shape', 'radius', 'shift', 'rotate', 'aa')}[k]
+            'segments': ('rings', 'radius', 'gap', 'rotate', 'drop', 'pad'), 'segments_aa': ('rings', 'radius', 'gap'),
+            'cross': ('shape', 'big', 'sub', 'radius', 'shift', 'which'), 'centroid_float': ('shape', 'data'), 'rebin_refusal': ('what',), 'circle': ('shape', 'radius', 'shift', 'aa'),
+            'rectangle': ('shape', 'width', 'height', 'shift', 'angle', 'aa'), 'spider': ('shape', 'width', 'shift', 'angle', 'aa'),
+            'window': ('shape', 'mode', 'to', 'slice'), 'hexagon': ('shape', 'radius', 'shift', 'rotate', 'aa')}[k]
     return k + ' ' + ' '.join(str(c[x]) for x in keys)
 
 def nontrivial(c):
@@ -199,7 +229,8 @@ def tags(c):
         if k == 'pad3' and m[0] != m[1]: t.append('pad3:non-square')
     if k == 'rebin': t.append('rebin:cube' if len(c['shape']) == 3 else 'rebin:2d')
     if k == 'segments': t += [f"segments:gap={'0' if c['gap'] == 0 else '>0'}", f"segments:rings={c['rings']}"]
-    if k in ('circle', 'rectangle', 'hexagon'): t.append(k + (':aa' if c['aa'] else ':binary'))
+    if k in ('circle', 'rectangle', 'hexagon', 'spider'): t.append(k + (':aa' if c['aa'] else ':binary'))
+    if k == 'window': t.append('window:' + c['mode'])
     return t
 
 # ------------------------------------------------------------------------------------------ implementation
@@ -212,6 +243,7 @@ def _shape_call(c, shift=None, shape=None):
     k = c['kind']; sh = tuple(shift if shift is not None else c['shift']); shp = tuple(shape or c['shape'])
     if k == 'circle': return lentil.circle(shp, c['radius'], shift=sh, antialias=c['aa'])
     if k == 'rectangle': return lentil.rectangle(shp, c['width'], c['height'], shift=sh, angle=c['angle'], antialias=c['aa'])
+    if k == 'spider': return lentil.spider(shp, c['width'], angle=c['angle'], shift=sh, antialias=c['aa'])
     return lentil.hexagon(shp, c['radius'], shift=sh, rotate=c['rotate'], antialias=c['aa'])
 
 def impl(c):
@@ -224,6 +256,41 @@ def impl(c):
             r = lentil.pad(a, tuple(c['to']))
             back = lentil.pad(r, tuple(c['shape'][-2:]))
             return {'shape': list(r.shape), 'data': _il(r), 'back_shape': list(back.shape), 'back': _il(back), 'dtype_kept': r.dtype == a.dtype}
+        if k == 'segments_aa':
+            m = np.asarray(lentil.hex_segments(c['rings'], c['radius'], c['gap']))            # library defaults: antialias=True, pad=2, drop=(0,)
+            flat = lentil.hex_segments(c['rings'], c['radius'], c['gap'], flatten=True)
+            return {'shape': list(m.shape), 'min': float(m.min()), 'max': float(m.max()), 'flat': [float(x) for x in np.ravel(flat)],
+                    'flat_is_sum': bool(np.allclose(flat, m.sum(0), atol=1e-12)),
+                    'border': float(max(flat[0, :].max(), flat[-1, :].max(), flat[:, 0].max(), flat[:, -1].max()))}
+        if k == 'cross':
+            shp, big, sub, sh = tuple(c['shape']), tuple(c['big']), tuple(c['sub']), tuple(c['shift'])
+            draw = {'circle': lambda s_: lentil.circle(s_, c['radius'], shift=sh, antialias=False),
+                    'hexagon': lambda s_: lentil.hexagon(s_, c['radius'] + 1, shift=sh, antialias=False),
+                    'rectangle': lambda s_: lentil.rectangle(s_, 2 * c['radius'] + 1, 3.0, shift=sh, antialias=False)}[c['which']]
+            small, large = draw(shp), draw(big)
+            a = _arr(c)
+            cen = lentil.centroid(small)
+            b = lentil.boundary(small)
+            return {'pad_of_shape': _il(lentil.pad(small, big)), 'shape_on_big': _il(large), 'crop_of_big': _il(lentil.pad(large, shp)), 'shape_on_small': _il(small),
+                    'subarray': _il(lentil.util.subarray(a, sub)), 'crop': _il(lentil.pad(a, sub)), 'centroid': [float(cen[0]), float(cen[1])], 'bbox': [int(x) for x in b]}
+        if k == 'centroid_float':
+            r = lentil.centroid(_arr(c))
+            return {'rc': [float(r[0]), float(r[1])]}
+        if k == 'rebin_refusal':
+            try:
+                lentil.rebin(np.ones((4, 4)), 0) if c['what'] == 'f0' else lentil.rebin(np.ones((4, 4), dtype=complex), 2)
+                return {'raised': None}
+            except Exception as e:
+                return {'raised': type(e).__name__}
+        if k == 'window':
+            a = _arr(c); md = c['mode']
+            if md == 'one-element': a = a.ravel()[:1].reshape(1, 1)
+            kw = {}
+            if md in ('shape', 'both', 'cube-shape', 'one-element'): kw['shape'] = tuple(c['to'])
+            if md in ('slice', 'both', 'cube-slice'): kw['slice'] = tuple(c['slice'])
+            if md == 'both': kw['shape'] = (c['slice'][1] - c['slice'][0], c['slice'][3] - c['slice'][2])
+            r = lentil.util.window(a, **kw)
+            return {'shape': list(np.shape(r)), 'data': _il(r)}
         if k == 'subarray':
             a = _arr(c)
             r = lentil.util.subarray(a, tuple(c['sub']), tuple(c['shift']))
@@ -301,6 +368,18 @@ def requests(c, io):
         return reqs
     if k == 'circle':
         return [{'op': 'circle', 'shape': c['shape'], 'radius': vlib.fbits(c['radius']), 'shift': vlib.fl(c['shift']), 'aa': c['aa']}]
+    if k in ('cross', 'centroid_float', 'rebin_refusal'): return []
+    if k == 'segments_aa':
+        return [{'op': 'hex_segments', 'rings': c['rings'], 'radius': vlib.fbits(c['radius']), 'gap': vlib.fbits(c['gap']), 'rotate': False,
+                 'pad': 2, 'drop': [0], 'theta': vlib.fl(_hex_thetas(False)), 'aa': True}]
+    if k == 'window':
+        md = c['mode']
+        if md == 'shape': return [{'op': 'pad2', 'shape': c['shape'], 'data': c['data'], 'to': c['to']}]
+        if md == 'cube-shape': return [{'op': 'pad3', 'shape': c['shape'], 'data': c['data'], 'to': c['to']}]
+        return []
+    if k == 'spider':
+        return [{'op': 'spider', 'shape': c['shape'], 'width': vlib.fbits(c['width']), 'shift': vlib.fl(c['shift']),
+                 'angle_rad': vlib.fbits(np.deg2rad(c['angle'])), 'aa': c['aa']}]
     if k == 'rectangle':
         return [{'op': 'rectangle', 'shape': c['shape'], 'width': vlib.fbits(c['width']), 'height': vlib.fbits(c['height']),
                  'shift': vlib.fl(c['shift']), 'angle_rad': vlib.fbits(np.deg2rad(c['angle'])), 'aa': c['aa']}]
@@ -322,6 +401,13 @@ def _margin(c):
         r = y * np.cos(a) + x * np.sin(a); cc = -y * np.sin(a) + x * np.cos(a)
         q = np.minimum(0.5 + c['width'] / 2 - np.abs(cc), 0.5 + c['height'] / 2 - np.abs(r))
         return np.clip(q, 0, 1), q
+    if k == 'spider':
+        # a vane of the given width running from the (shifted) centre outwards along `angle`, of length sqrt(2)*max(shape)/2
+        a = np.deg2rad(c['angle']); L = np.sqrt(2) * max(n0, n1) / 2
+        yc = y - (-(L / 2) * np.sin(a)); xc = x - (L / 2) * np.cos(a)
+        r = yc * np.cos(a) + xc * np.sin(a); cc = -yc * np.sin(a) + xc * np.cos(a)
+        q = np.minimum(0.5 + L / 2 - np.abs(cc), 0.5 + c['width'] / 2 - np.abs(r))
+        return 1 - np.clip(q, 0, 1), q
     inner = c['radius'] * np.sqrt(3) / 2
     rho = np.max([y * np.sin(t) + x * np.cos(t) for t in _hex_thetas(c['rotate'])], axis=0)
     if c['aa']: return np.clip(inner + 0.5 - rho, 0, 1), inner + 0.5 - rho
@@ -329,7 +415,8 @@ def _margin(c):
 
 def _ref_mask(c):
     m, q = _margin(c)
-    if not c['aa'] and c['kind'] != 'hexagon': m = (q > 0).astype(float)
+    if not c['aa'] and c['kind'] == 'spider': m = 1 - (q > 0).astype(float)
+    elif not c['aa'] and c['kind'] != 'hexagon': m = (q > 0).astype(float)
     return m, q
 
 def _cmp_mask(c, got, want, q, what):
@@ -342,13 +429,26 @@ def _cmp_mask(c, got, want, q, what):
     return None
 
 def compare(c, io, mo):
-    k = c['kind']; m = mo[0]
+    k = c['kind']; m = mo[0] if mo else None
+    if k == 'window' and not mo: return None
+    if k in ('cross', 'centroid_float', 'rebin_refusal'): return None
+    if k == 'segments_aa':
+        if 'exc' in io: return f"hex_segments (defaults) raised {io['exc']}: {io.get('msg')}"
+        if not m.get('ok'): return f"model refused: {m.get('err')}"
+        if io['shape'][1:] != [m['size'], m['size']] or io['shape'][0] != m['count']: return f"hex_segments defaults: shape {io['shape']} vs model count {m['count']}, size {m['size']}"
+        want = np.array(vlib.unfl(m['flat'])); got = np.array(io['flat'])
+        if np.abs(got - want).max() > 1e-9: return f'hex_segments (antialiased, flattened) differs from the model by {np.abs(got - want).max():.3e}'
+        return None
     if 'exc' in io:
         if m.get('ok'): return f"implementation raised {io['exc']} ({io.get('msg')}), model answered"
         return None if m.get('err') == io['exc'] else f"implementation raised {io['exc']}, model {m.get('err')}"
     if not m.get('ok'): return f"model refused ({m.get('err')}), implementation answered"
-    if k == 'rebin' and len(c['shape']) == 3 and c.get('dtype') in ('int8', 'uint8', 'int16', 'uint16', 'int32', 'uint32'):
-        return None      # KF-C20-rebin-int-cube-wraps: judged by the oracle (the model sums in Int and cannot wrap)
+    if k == 'window':
+        if not mo: return None
+        m = mo[0]
+        if 'exc' in io: return f"window raised {io['exc']}: {io.get('msg')}"
+        if io['shape'] != m['shape'] or io['data'] != m['data']: return f"window(shape=...) differs from the pad model: {io['shape']} vs {m['shape']}"
+        return None
     if k in ('pad2', 'pad3', 'subarray', 'rebin'):
         if io['shape'] != m['shape']: return f"shape: impl {io['shape']} model {m['shape']}"
         if io['data'] != m['data']: return f"{k}: values differ"
@@ -426,6 +526,58 @@ def oracle(c, io):
         if S[0] >= a.shape[-2] and S[1] >= a.shape[-1]:
             if io['back_shape'] != list(a.shape) or io['back'] != _il(a): return 'pad then crop back is not the identity'
         if not io['dtype_kept']: return 'pad changed the dtype'
+        return None
+    if k == 'segments_aa':
+        if 'exc' in io: return f"hex_segments (defaults) raised {io['exc']}: {io.get('msg')}"
+        N = 1 + 3 * c['rings'] * (c['rings'] + 1)
+        if io['shape'][0] != N - 1: return f"hex_segments with the default drop=(0,) drew {io['shape'][0]} segments, expected {N - 1}"
+        if io['min'] < 0 or io['max'] > 1: return 'antialiased segment values outside [0, 1]'
+        if not io['flat_is_sum']: return 'flatten=True is not the sum of the segment masks'
+        if max(io['flat']) > 1 + 1e-12: return f"flattened antialiased aperture exceeds 1 ({max(io['flat'])}) although seg_gap >= 1"
+        if io['border'] > 0: return 'an antialiased segment touches the array border'
+        return None
+    if k == 'cross':
+        if 'exc' in io: return f"cross-helper case raised {io['exc']}: {io.get('msg')}"
+        shp, big = c['shape'], c['big']
+        small = np.array(io['shape_on_small']).reshape(shp); large = np.array(io['shape_on_big']).reshape(big)
+        # pad(shape drawn on n) == shape drawn on N, wherever pad copies (the shape fits inside both)
+        P = np.array(io['pad_of_shape']).reshape(big)
+        for i in range(big[0]):
+            for j in range(big[1]):
+                r, q = i - big[0] // 2 + shp[0] // 2, j - big[1] // 2 + shp[1] // 2
+                if 0 <= r < shp[0] and 0 <= q < shp[1] and P[i, j] != large[i, j]: return f"pad({c['which']} on {shp}) differs from {c['which']} drawn on {big} at [{i},{j}]"
+        if io['crop_of_big'] != io['shape_on_small']: return f"cropping {c['which']} drawn on {big} does not give {c['which']} drawn on {shp}"
+        if io['subarray'] != io['crop']: return 'subarray(a, s) differs from pad(a, s) for a crop'
+        if small.sum() > 0 and small[0, :].sum() + small[-1, :].sum() + small[:, 0].sum() + small[:, -1].sum() == 0:
+            want = [shp[0] // 2 + c['shift'][0], shp[1] // 2 + c['shift'][1]]
+            if max(abs(io['centroid'][0] - want[0]), abs(io['centroid'][1] - want[1])) > 1e-9:
+                return f"centroid of a {c['which']} shifted by the integer vector {c['shift']} is {io['centroid']}, expected floor(n/2) + shift = {want}"
+            bb = io['bbox']
+            if bb[0] + bb[1] != 2 * want[0] or bb[2] + bb[3] != 2 * want[1]: return f"bounding box {bb} of a {c['which']} is not symmetric about floor(n/2) + shift = {want}"
+        return None
+    if k == 'centroid_float':
+        if 'exc' in io: return f"centroid raised {io['exc']}"
+        a = _arr(c); tot = a.sum()
+        if abs(tot) < 1e-9: return None
+        want = [float((np.arange(a.shape[0])[:, None] * a).sum() / tot), float((np.arange(a.shape[1])[None, :] * a).sum() / tot)]
+        if max(abs(want[0] - io['rc'][0]), abs(want[1] - io['rc'][1])) > 1e-9 * (1 + max(a.shape)) * max(1.0, np.abs(a).sum() / abs(tot)): return f"centroid {io['rc']} != {want}"
+        return None
+    if k == 'rebin_refusal':
+        want = 'ZeroDivisionError' if c['what'] == 'f0' else 'ValueError'
+        return None if io.get('raised') == want else f"rebin({c['what']}): expected {want}, got {io.get('raised')}"
+    if k == 'window':
+        if 'exc' in io: return f"window raised {io['exc']}: {io.get('msg')}"
+        a = _arr(c); md = c['mode']
+        if md == 'one-element': want = a.ravel()[:1].reshape(1, 1)
+        elif md == 'none': want = a
+        elif md in ('slice', 'both', 'cube-slice'):
+            sl = c['slice']; want = a[..., sl[0]:sl[1], sl[2]:sl[3]]
+        else:
+            S = c['to']; want = np.zeros(a.shape[:-2] + tuple(S))
+            for i in range(S[0]):
+                for j in range(S[1]): want[..., i, j] = _centred(a, i - S[0] // 2, j - S[1] // 2)
+        if io['shape'] != list(want.shape) or io['data'] != _il(want):
+            return f"window({md}) is not {'the requested slice' if 'slice' in md or md == 'both' else 'the centred crop/pad (origin at floor(n/2))'}"
         return None
     if k == 'subarray':
         a = _arr(c); h, w = c['sub']; o = c['shift']
@@ -527,10 +679,16 @@ def oracle(c, io):
     # integer shift = exact translation of the sampled picture (on the common support)
     src = a[max(0, -d0):n0 - max(0, d0), max(0, -d1):n1 - max(0, d1)]
     dst = b[max(0, d0):n0 - max(0, -d0), max(0, d1):n1 - max(0, -d1)]
-    if not np.array_equal(src, dst): return f'{k}: shifting by the integer vector {c["dshift"]} does not translate the samples exactly'
+    if k == 'spider':
+        # the vane's own offset (len/2·(−sin, cos)) is added to the shift in floating point: translation holds to rounding only
+        qs = q[max(0, -d0):n0 - max(0, d0), max(0, -d1):n1 - max(0, d1)]
+        bad = (np.abs(src - dst) > 1e-9) & ((np.abs(qs) > 1e-9) | c['aa'])
+        if bad.any(): return f'{k}: shifting by the integer vector {c["dshift"]} does not translate the samples'
+    elif not np.array_equal(src, dst): return f'{k}: shifting by the integer vector {c["dshift"]} does not translate the samples exactly'
     if c['shift'] == [0.0, 0.0]:
         c0, c1 = n0 // 2, n1 // 2
         exact = k != 'hexagon'
+        if k == 'spider': return None      # a single vane has no half-turn symmetry
         for i in range(n0):
             for j in range(n1):
                 i2, j2 = 2 * c0 - i, 2 * c1 - j
@@ -554,9 +712,6 @@ def shrink(c):
 # ------------------------------------------------------------------------------------------ known finding
 def matches_finding(kf, case, msg):
     m = kf.get('match', {})
-    if kf.get('id') == 'KF-C20-rebin-int-cube-wraps':
-        return (case.get('kind') == 'rebin' and len(case.get('shape', [])) == 3 and case.get('dtype') in ('int8', 'uint8', 'int16', 'uint16', 'int32', 'uint32')
-                and 'the output keeps the input dtype and the bin sums wrap' in msg)
     if kf.get('id') != 'KF-C20-hex-gap0-shared-edge': return False
     # only the bounded shared-edge overlap is the known finding: multiplicity <= 3, shared pixels on the rim of all but one segment, at most
     # (3k^2+k axis-parallel shared edges) x (R+1 pixel centres each) + 6k^2 vertex pixels — anything more at gap 0 stays a VIOLATION
@@ -565,9 +720,6 @@ def matches_finding(kf, case, msg):
 
 def replay_finding(kf):
     """the recorded witness on the real code"""
-    if kf.get('id') == 'KF-C20-rebin-int-cube-wraps':
-        c = kf['witness']; io = impl(c); msg = oracle(c, io) if 'exc' not in io else None
-        return bool(msg and matches_finding(kf, c, msg))
     if kf.get('id') != 'KF-C20-hex-gap0-shared-edge': return False
     c = kf['witness']
     io = impl(c)
